@@ -490,7 +490,7 @@ def frag(rng):
     if r < 0.71:
         return rng.choice(["42 U.S.C. § 1983", "Mass. Gen. Laws ch. 1, § 2 (West 1999)", "§ 5", "§§ 1-2",
                            "29 C.F.R. § 1910.1200(a)(2)", "Fla. Stat. § 1.01 (2020)",
-                           "1 Stat. 2", "Pub. L. No. 94-553"])
+                           "1 Stat. 2", "Pub. L. No. 94-553", "42 U.S.C. §1983(b)", "§42 U.S.C. § 1983", "29 C.F.R. §1910.1200(g)(8)"])
     if r < 0.73:
         return f"{rng.choice(['', 'In ', 'As '])}{ref_name(rng)} at {num(rng)}"
     if r < 0.75:
